@@ -38,6 +38,8 @@ def angle(rng):
         return sign(rng) * (2 * PI * k + rng.uniform(-PI, PI))
     if r < 0.8:
         return float(rng.uniform(-PI, PI))
+    if r < 0.83:      # across the library's zero thresholds (10 eps, 100 eps)
+        return sign(rng) * logu(rng, 1e-18, 1e-12)
     return sign(rng) * logu(rng, 1e-12, PI)
 
 
@@ -48,6 +50,8 @@ def rot_angle(rng):
         return 0.0
     if r < 0.12:
         return PI
+    if r < 0.15:      # across the library's zero thresholds (10 eps, 100 eps)
+        return logu(rng, 1e-18, 1e-12)
     if r < 0.30:
         return logu(rng, 1e-12, 1e-3)
     if r < 0.48:
